@@ -165,6 +165,36 @@ func containerValue(kind, class, cont string) reflect.Value {
 		s.Index(0).Set(mkStruct())
 		s.Index(1).Set(mkStruct())
 		return s
+	case "slices":
+		inner := reflect.SliceOf(lt)
+		s := reflect.MakeSlice(reflect.SliceOf(inner), 3, 3)
+		for i := 0; i < 3; i++ {
+			e := reflect.MakeSlice(inner, i, i)
+			for k := 0; k < i; k++ {
+				e.Index(k).Set(leaf)
+			}
+			s.Index(i).Set(e)
+		}
+		return s
+	case "inner":
+		it := reflect.StructOf([]reflect.StructField{{Name: "A", Type: reflect.TypeOf(uint8(0))}, {Name: "V", Type: reflect.SliceOf(lt)}, {Name: "S", Type: reflect.TypeOf("")}})
+		v := reflect.New(it).Elem()
+		v.Field(0).SetUint(9)
+		e := reflect.MakeSlice(reflect.SliceOf(lt), 2, 2)
+		e.Index(0).Set(leaf)
+		e.Index(1).Set(leaf)
+		v.Field(1).Set(e)
+		v.Field(2).SetString("end")
+		return v
+	case "arrays":
+		at := reflect.ArrayOf(2, lt)
+		a := reflect.New(reflect.ArrayOf(2, at)).Elem()
+		for i := 0; i < 2; i++ {
+			for k := 0; k < 2; k++ {
+				a.Index(i).Index(k).Set(leaf)
+			}
+		}
+		return a
 	case "hidden":
 		return hiddenSlice(kind, leaf)
 	case "zerow":
